@@ -20,7 +20,8 @@ Record adapter := mk_adapter {
   a_iter : a_state -> bytes -> bytes -> N -> list item;          (* KvStorage.Iter + Next until io.EOF *)
   a_batch : a_state -> list bop -> a_state * rclass * option conflict;   (* BeginBatchWrite … Commit *)
   a_del : a_state -> bytes -> a_state * rclass;                  (* KvStorage.Del *)
-  a_delcur : a_state -> item -> a_state * rclass * option conflict       (* KvStorage.DelCurrent *)
+  a_delcur : a_state -> item -> a_state * rclass * option conflict;      (* KvStorage.DelCurrent *)
+  a_nil_empty : bool                                             (* an empty stored value is read back as a nil slice *)
 }.
 
 Fixpoint take_while {A} (p : A -> bool) (l : list A) : list A :=
@@ -106,7 +107,8 @@ Definition memkv : adapter := {|
   a_iter := fun s a b l => with_stamp0 (mem_iter s a b l);
   a_batch := mem_batch_run;
   a_del := fun s k => let '(s', c, _) := mem_batch_run s [Del k] in (s', c);
-  a_delcur := fun s i => mem_batch_run s [DelCur (fst (fst i)) (snd (fst i)) (snd i)]
+  a_delcur := fun s i => mem_batch_run s [DelCur (fst (fst i)) (snd (fst i)) (snd i)];
+  a_nil_empty := false                                           (* the caller's slice is stored as it is *)
 |}.
 
 (* ====================================================================================== *)
@@ -200,7 +202,8 @@ Definition badger : adapter := {|
   a_iter := b_iter;
   a_batch := b_batch;
   a_del := b_del;
-  a_delcur := fun s i => b_batch s [DelCur (fst (fst i)) (snd (fst i)) (snd i)]
+  a_delcur := fun s i => b_batch s [DelCur (fst (fst i)) (snd (fst i)) (snd i)];
+  a_nil_empty := true                                            (* Item.ValueCopy(nil) of an empty value is nil *)
 |}.
 
 (* ====================================================================================== *)
@@ -309,7 +312,8 @@ Definition tikv : adapter := {|
   a_iter := fun s a b l => with_stamp0 (t_iter s a b l);
   a_batch := t_batch;
   a_del := fun s k => let '(s', c, _) := t_batch s [Del k] in (s', c);
-  a_delcur := fun s i => t_batch s [DelCur (fst (fst i)) (snd (fst i)) (snd i)]
+  a_delcur := fun s i => t_batch s [DelCur (fst (fst i)) (snd (fst i)) (snd i)];
+  a_nil_empty := false                                           (* empty values cannot be stored at all *)
 |}.
 
 (* ====================================================================================== *)
@@ -325,5 +329,6 @@ Definition wrapper (inner : adapter) : adapter := {|
   a_iter := a_iter inner;
   a_batch := a_batch inner;
   a_del := a_del inner;
-  a_delcur := a_delcur inner
+  a_delcur := a_delcur inner;
+  a_nil_empty := a_nil_empty inner
 |}.
